@@ -211,7 +211,10 @@ func (t *TaskQueueBuilder) Build(taskContext *taskrunner.TaskContext, o Options)
 		}
 	}
 
-	prevInvIds, _ := t.InvClient.GetClusterObjs(t.invInfo)
+	// A failed read must not be mistaken for an empty inventory: the error is
+	// handed to the inventory task, which then fails instead of replacing the
+	// stored inventory.
+	prevInvIds, prevInvErr := t.InvClient.GetClusterObjs(t.invInfo)
 	klog.V(2).Infoln("adding delete/update inventory task")
 	var taskName string
 	if o.Destroy {
@@ -224,6 +227,7 @@ func (t *TaskQueueBuilder) Build(taskContext *taskrunner.TaskContext, o Options)
 		InvClient:     t.InvClient,
 		InvInfo:       t.invInfo,
 		PrevInventory: prevInvIds,
+		PrevInvErr:    prevInvErr,
 		DryRun:        o.DryRunStrategy,
 		Destroy:       o.Destroy,
 	})
